@@ -134,6 +134,30 @@ def check(pid, tier, seed):
         else:
             merged[f["obligation"]] = dict(f)
     failures = list(merged.values())
+    # ---- arbitration by complete twins -------------------------------------------------------------------------
+    # A Verus clause that is rejected while its *complete* Kani twin (same clause, all inputs, bit-precise, on the
+    # compiled repository code) is proved in this very run is not a violation of the property: the proof needs
+    # maintenance (e.g. the function was rewritten in a way the SMT solver cannot follow).  It is reported UNDECIDED.
+    if kres is not None and kres.get("status") != "undecided":
+        from . import kani as _k
+        hmeta = {}
+        for g in P.get("kani", []):
+            for h in _k.parse_harnesses(g["unit"]):
+                hmeta[h["id"]] = h
+        ran = dict((o["id"], o["discharged"]) for o in kres["obligations"])
+        kept = []
+        for f in failures:
+            if f.get("backend") == "verus":
+                twins = [h for h in hmeta.values() if f["obligation"] in h["pair"] and h["kind"] == "complete" and h["id"] in ran]
+                if twins and all(ran[h["id"]] for h in twins):
+                    undecided.append("%s: Verus rejects %s (%s) but its complete Kani twin %s proves the clause on the compiled code for all inputs: proof needs maintenance, not reported as a violation"
+                                     % (f.get("unit"), f["obligation"], f["message"].split("|")[0].strip(), ", ".join(h["id"] for h in twins)))
+                    for o in obligations:
+                        if o["id"] == f["obligation"]:
+                            o["discharged"] = False
+                    continue
+            kept.append(f)
+        failures = kept
     violations = []
     known_hits = []
     for f in failures:
